@@ -1,4 +1,100 @@
 import EudoxiaModel.Model.Profile
+/-! # C05 — container execution follows the documented time and memory model
+
+The documented model is the specification `specRun` (Model/Profile.lean), which does not mention the tick generator;
+the correspondence check runs thousands of real containers against it.  Theorems here: the tick counts and the memory
+profile are the documented formulas, an operator occupies at least one tick, and the scaling laws behave as documented. -/
 namespace Eudoxia.C05
-theorem placeholder : True := trivial
+open Eudoxia Extracted
+
+/-- I/O ticks are ⌊read_gb / 20 · ticks_per_second⌋ (in quanta: ⌊read / g⌋ with g·tps = 20·q) -/
+theorem io_ticks_formula (cfg : Cfg) (s : Seg) : s.ioTicks cfg = s.read / cfg.g := rfl
+
+/-- CPU ticks of the rational laws are ⌊baseline · tps / s(law, cpus)⌋ -/
+theorem cpu_ticks_formula (cfg : Cfg) (cpus : Nat) (s : Seg) (h : s.law ≠ .sqrt ∧ s.law ≠ .log) :
+    s.cpuTicks cfg cpus = s.baseNum * cfg.tps / (s.baseDen * s.law.divisor cpus) := by
+  unfold Seg.cpuTicks Seg.cpuTicks?
+  cases hl : s.law <;> simp_all
+
+/-- the divisors of the documented laws: const 1, linear3 min(c,3), linear7 min(c,7), squared c², exp 2^min(c,4) -/
+theorem law_divisors (c : Nat) :
+    Law.divisor .const c = 1 ∧ Law.divisor .linear3 c = min c 3 ∧ Law.divisor .linear7 c = min c 7 ∧
+    Law.divisor .squared c = c ^ 2 ∧ Law.divisor .exp c = 2 ^ (min c 4) := by
+  refine ⟨rfl, ?_, ?_, rfl, ?_⟩
+  · simp only [Law.divisor, linear3Cut]; by_cases h : c < 3 <;> simp [h] <;> omega
+  · simp only [Law.divisor, linear7Cut]; by_cases h : c < 7 <;> simp [h] <;> omega
+  · simp only [Law.divisor, expCut, expBase, expCap]
+    by_cases h : c < 4
+    · simp only [h, ↓reduceIte]; rw [Nat.min_eq_left (by omega)]
+    · simp only [h, ↓reduceIte]; rw [Nat.min_eq_right (by omega)]
+
+/-- more cores never make a segment slower (rational laws): the divisor is monotone in the core count … -/
+theorem divisor_monotone (l : Law) (c c' : Nat) (h : c ≤ c') (hc : 1 ≤ c) : l.divisor c ≤ l.divisor c' := by
+  cases l <;> simp only [Law.divisor, linear3Cut, linear7Cut, squaredExp, expCut, expBase, expCap, Nat.le_refl]
+  · by_cases h1 : c < 3 <;> by_cases h2 : c' < 3 <;> simp [h1, h2] <;> omega
+  · by_cases h1 : c < 7 <;> by_cases h2 : c' < 7 <;> simp [h1, h2] <;> omega
+  · exact Nat.pow_le_pow_left h 2
+  · by_cases h1 : c < 4 <;> by_cases h2 : c' < 4 <;> simp only [h1, h2, ↓reduceIte]
+    · exact Nat.pow_le_pow_right (by omega) h
+    · have : 2 ^ c ≤ 2 ^ 4 := Nat.pow_le_pow_right (by omega) (by omega)
+      omega
+    · omega
+    · omega
+
+/-- … hence the CPU tick count is antitone in the core count -/
+theorem cpu_ticks_antitone (cfg : Cfg) (s : Seg) (c c' : Nat) (h : c ≤ c') (hc : 1 ≤ c) (hl : s.law ≠ .sqrt ∧ s.law ≠ .log) (hd : 0 < s.baseDen) :
+    s.cpuTicks cfg c' ≤ s.cpuTicks cfg c := by
+  rw [cpu_ticks_formula cfg c' s hl, cpu_ticks_formula cfg c s hl]
+  have hm := divisor_monotone s.law c c' h hc
+  have hpos : 0 < s.law.divisor c := by
+    cases hlaw : s.law <;> simp only [Law.divisor, linear3Cut, linear7Cut, squaredExp, expCut, expBase, expCap]
+    · omega
+    · omega
+    · omega
+    · by_cases h1 : c < 3 <;> simp [h1] <;> omega
+    · by_cases h1 : c < 7 <;> simp [h1] <;> omega
+    · exact Nat.pow_pos (by omega)
+    · by_cases h1 : c < 4 <;> simp only [h1, ↓reduceIte]
+      · exact Nat.pow_pos (by omega)
+      · omega
+  exact Nat.div_le_div_left (Nat.mul_le_mul_left _ hm) (Nat.mul_pos hd hpos)
+
+/-- linear3 / linear7 / exp are flat beyond 3 / 7 / 4 cores (README) -/
+theorem laws_flat_beyond_their_bound (c : Nat) :
+    (3 ≤ c → Law.divisor .linear3 c = 3) ∧ (7 ≤ c → Law.divisor .linear7 c = 7) ∧ (4 ≤ c → Law.divisor .exp c = 16) := by
+  simp only [Law.divisor, linear3Cut, linear7Cut, expCut, expCap]
+  refine ⟨fun h => ?_, fun h => ?_, fun h => ?_⟩
+  · have : ¬ c < 3 := by omega
+    simp [this]
+  · have : ¬ c < 7 := by omega
+    simp [this]
+  · have : ¬ c < 4 := by omega
+    simp [this]
+
+/-- during I/O a segment without fixed memory holds 20 GB per simulated second (g quanta per tick), afterwards the amount read;
+    a segment with fixed memory holds that amount from its first tick -/
+theorem memory_profile (cfg : Cfg) (s : Seg) (io i : Nat) :
+    segMem cfg s io i = (if i < io then (match s.fixed with | some m => m | none => (i + 1) * cfg.g) else s.peak) := rfl
+
+/-- **an operator occupies at least one tick** -/
+theorem operator_occupies_at_least_one_tick (cfg : Cfg) (cpu : Nat) (segs : List Seg) (h : segs ≠ []) :
+    1 ≤ tickSum (opTickTable cfg cpu segs) := by
+  unfold opTickTable
+  have hne : segs.isEmpty = false := by cases segs <;> simp_all
+  by_cases h0 : tickSum (rawTickTable cfg cpu segs) = 0
+  · simp only [hne, Bool.not_false, h0, beq_self_eq_true, Bool.and_self, ↓reduceIte]
+    simp [tickSum]
+  · have : (tickSum (rawTickTable cfg cpu segs) == 0) = false := by simpa using h0
+    simp only [hne, Bool.not_false, this, Bool.and_false, Bool.false_eq_true, ↓reduceIte]
+    omega
+
+/-- the specification on a small example: two operators (3 I/O ticks growing by g, then 2 CPU ticks at the amount read; then fixed memory),
+    success after the summed tick count -/
+example :
+    let cfg : Cfg := { tps := 1, q := 64, g := 1280 }
+    let ops : List (List Seg) := [[{ baseNum := 2, read := 3840 }], [{ baseNum := 1, fixed := some 64, read := 0 }]]
+    (specRun cfg 1 4000 ops).mem = [1280, 2560, 3840, 3840, 3840] ∧ (specRun cfg 1 4000 ops).endTick = 6 ∧ (specRun cfg 1 4000 ops).ok = true ∧
+    (specRun cfg 1 3000 ops).ok = false ∧ (specRun cfg 1 3000 ops).endTick = 3 ∧ (specRun cfg 1 3000 ops).completedOps = 0 := by
+  decide
+
 end Eudoxia.C05
